@@ -319,6 +319,13 @@ class Fn:
                 lo = "none" if e.slice.lower is None else f"(some {self.expr(e.slice.lower, env, pre)[0]})"
                 hi = "none" if e.slice.upper is None else f"(some {self.expr(e.slice.upper, env, pre)[0]})"
                 return f"(pySlice {base} {lo} {hi})", bt
+            if isinstance(bt, tuple) and bt[0] == "tuple":
+                # t[k] on a fixed-length tuple with a literal index: the projection
+                if not (isinstance(e.slice, ast.Constant) and isinstance(e.slice.value, int) and not isinstance(e.slice.value, bool)
+                        and 0 <= e.slice.value < len(bt[1])):
+                    raise Unsupported("tuple index that is not a literal in range")
+                k, n = e.slice.value, len(bt[1])
+                return "(" + base + ".2" * k + (".1" if k < n - 1 else "") + ")", bt[1][k]
             idx, it = self.expr(e.slice, env, pre)
             if it != "int":
                 raise Unsupported("non-int index")
@@ -410,9 +417,11 @@ class Fn:
             raise Unsupported(f"binary {op.__name__} on {at}, {bt}")
         if op in (ast.Add, ast.Sub, ast.Mult):
             return f"({a} {'+' if op is ast.Add else '-' if op is ast.Sub else '*'} {b})", "int"
-        if op in (ast.FloorDiv, ast.Mod, ast.Pow, ast.BitAnd, ast.BitOr, ast.LShift, ast.RShift):
-            fn = {ast.FloorDiv: "PyT.floordiv", ast.Mod: "PyT.mod", ast.Pow: "PyT.pow", ast.BitAnd: "PyT.bitAnd",
-                  ast.BitOr: "PyT.bitOr", ast.LShift: "PyT.shl", ast.RShift: "PyT.shr"}[op]
+        if op in (ast.BitAnd, ast.BitOr):
+            return f"(PyT.{'bitAnd' if op is ast.BitAnd else 'bitOr'} {a} {b})", "int"
+        if op in (ast.FloorDiv, ast.Mod, ast.Pow, ast.LShift, ast.RShift):
+            fn = {ast.FloorDiv: "PyT.floordiv", ast.Mod: "PyT.mod", ast.Pow: "PyT.pow",
+                  ast.LShift: "PyT.shl", ast.RShift: "PyT.shr"}[op]
             v = self.fresh()
             pre.append(f"let {v} ← {fn} {a} {b}")
             return v, "int"
@@ -426,7 +435,8 @@ class Fn:
             lean_fn, argtypes, rett, monadic, *keep = externs[src]
             # optional 5th component: the positions of the Python arguments that are passed on (an argument that only
             # stands for "the value the third-party function is about", e.g. the datetime, is dropped)
-            args = [self.expr(a, env, pre)[0] for i, a in enumerate(e.args) if not keep or i in keep[0]]
+            args = [self.expr(a, env, pre)[0] for i, a in enumerate(list(e.args) + [k.value for k in e.keywords])
+                    if not keep or i in keep[0]]
             code = f"({lean_fn} " + " ".join(args) + ")" if args else lean_fn
             if monadic:
                 v = self.fresh()
@@ -612,6 +622,10 @@ class Fn:
         if isinstance(s, ast.Expr) and isinstance(s.value, ast.Constant) and isinstance(s.value.value, str):
             return cont(env)  # docstring
         if isinstance(s, ast.Pass):
+            return cont(env)
+        if ast.unparse(s).strip() in self.spec.get("skip", ()):
+            # a statement whose effect is supplied by the harness as parameters of the translated definition
+            # (third-party / object-graph step named in the entry's `assume`)
             return cont(env)
         if isinstance(s, ast.Assign) and len(s.targets) == 1 and isinstance(s.targets[0], ast.Name) \
                 and s.targets[0].id in getattr(self, "msg_only", ()):
@@ -907,10 +921,22 @@ class Fn:
 
     def translate(self, fdef: ast.FunctionDef) -> str:
         self.msg_only = self.message_only(fdef)
+        body_of = self.spec.get("body_of")
+        if body_of:
+            # translate the body of the one loop statement whose header line is `body_of` (its loop variable and whatever
+            # else the body reads are parameters of the entry)
+            loops = [n for n in ast.walk(fdef) if isinstance(n, (ast.For, ast.While))
+                     and ast.unparse(n).split("\n")[0].strip() == body_of]
+            if len(loops) != 1:
+                raise Unsupported(f"loop {body_of!r} not found exactly once")
+            fdef = ast.FunctionDef(name=fdef.name, args=fdef.args, body=list(loops[0].body), decorator_list=[],
+                                   returns=None, type_comment=None, lineno=fdef.lineno, col_offset=0)
+            ast.fix_missing_locations(fdef)
         until = self.spec.get("until")
         if until:
             # translate only the prefix of the body before the statement `until[0]`, then return the tuple `until[1]`
-            cut = [i for i, st in enumerate(fdef.body) if ast.unparse(st).strip() == until[0]]
+            cut = [i for i, st in enumerate(fdef.body) if ast.unparse(st).strip() == until[0]
+                   or ast.unparse(st).split("\n")[0].strip() == until[0]]
             if len(cut) != 1:
                 raise Unsupported(f"statement {until[0]!r} that ends the translated prefix not found exactly once")
             ret = ast.parse("return (" + ", ".join(until[1]) + ")").body[0]
@@ -981,12 +1007,31 @@ TARGETS = [
     {"group": "NumFmt", "module": "numbers_parser.cell", "qualname": "_twos_complement", "lean": "twos_complement",
      "params": [("value", "int"), ("base", "int")], "ret": "str",
      "assume": "bin/oct/hex(x)[2:] are the base-2/8/16 digits of x >= 0 (lower case), str.upper on them is ASCII upper-casing"},
+    # ---- C12: packing / unpacking of merge rectangles in the merge-region map ------------------------------------------
+    {"group": "Merge", "module": "numbers_parser.model", "qualname": "_NumbersModel.recalculate_merged_cells",
+     "lean": "merge_pack", "params": [("row_col", ("tuple", ["int", "int"])), ("size", ("tuple", ["int", "int"]))],
+     "ret": ("tuple", ["int", "int"]),
+     "body_of": "for row_col in merge_cells.merge_cells():",
+     "skip": ["size = merge_cells.size(row_col)"],
+     "externs": {"TSTArchives.CellID": ("PyT.uint32Field", ["int"], "int", True),
+                 "TSTArchives.TableSize": ("PyT.uint32Field", ["int"], "int", True)},
+     "until": ("cell_range = TSTArchives.CellRange(origin=cell_id, size=table_size)", ["cell_id", "table_size"]),
+     "assume": "the body of the loop over the anchors: merge_cells.size(row_col) is a parameter; CellID(packedData=x) / "
+               "TableSize(packedData=x) store x in a protobuf uint32 field (ValueError outside 0..2^32-1) and stand for x"},
+    {"group": "Merge", "module": "numbers_parser.model", "qualname": "_NumbersModel.calculate_merge_cell_ranges",
+     "lean": "merge_unpack", "params": [("origin", "int"), ("size_packed", "int")],
+     "ret": ("tuple", ["int", "int", "int", "int", "int", "int"]),
+     "body_of": "for cell_range in cell_ranges.cell_range:",
+     "attrs": {"cell_range.origin.packedData": ("origin", "int"), "cell_range.size.packedData": ("size_packed", "int")},
+     "until": ("for row in range(row_start, row_end + 1):", ["row_start", "col_start", "row_end", "col_end", "num_rows", "num_columns"]),
+     "assume": "the body of the loop over the stored ranges up to the loops that fill the map: the two packedData fields are "
+               "parameters (uint32 values)"},
     # ---- C01: the integer part of the decimal128 reader ---------------------------------------------------------------
     {"group": "Dec128", "module": "numbers_parser.cell", "qualname": "_unpack_decimal128", "lean": "unpack_decimal128",
      "params": [("buffer", "bytes")], "ret": ("tuple", ["int", "int", "int"]), "module_consts": True,
      "until": ("return float(f'{mantissa}E{exp}')", ["sign", "mantissa", "exp"]),
      "assume": "everything before the final float(f'{mantissa}E{exp}') is translated (the correctly rounded decimal -> binary64 "
-               "conversion stays a parameter); & and | are translated for non-negative operands only"},
+               "conversion stays a parameter)"},
     # ---- C14: date directives with arithmetic of their own, the quote scanners, duration units --------------------------
     {"group": "DateFmt", "module": "numbers_parser.constants", "qualname": "_day_of_year", "lean": "day_of_year",
      "params": [("yday", "int")], "ret": "int",
@@ -1043,7 +1088,7 @@ def find_def(module: str, qualname: str) -> ast.FunctionDef:
     return node
 
 
-GROUP_IMPORTS = {"A1": ["NumbersModel.Model.A1"], "Items": [], "NumFmt": [], "Addr": [], "DateFmt": [], "Duration": [], "Dec128": []}
+GROUP_IMPORTS = {"A1": ["NumbersModel.Model.A1"], "Items": [], "NumFmt": [], "Addr": [], "DateFmt": [], "Duration": [], "Dec128": [], "Merge": []}
 
 
 def generate(group: str) -> tuple[str, dict]:
